@@ -38,7 +38,10 @@ RULE = ("hist: a random history (4-33 ops) of deliveries, raw HTTP requests (7 p
         "that is answered 200.")
 TRUSTED = [
     "go/cmd/pins reads the route tables (template, name, method), the mount points and the client's URI prefix from the source on every "
-    "run (coq/Gen/RestRoutes.v); route_tables_sound proves the model's router against them",
+    "run (coq/Gen/RestRoutes.v); route_tables_sound and route_tables_complete prove the model's router against them in both directions",
+    "go/cmd/pins reads the json tags of the answer structs, the expression every handler puts into every field, the client's and the "
+    "driver's decoding structs, and per handler its 404s / content types / JSON renderings (coq/Gen/RestJson.v); json_fields_pinned and "
+    "answer_kinds_pinned prove the rendering model's tables and the handler model's status cases against them",
     "gorilla/mux route matching on the decoded path, net/http server request parsing and client redirect handling, net/url "
     "QueryEscape/JoinPath/EscapedPath and path.Clean: modelled in Model/Rest.v, validated by correspondence only",
     "MailboxForAddress (C04) is a parameter of the model; the runner instantiates it with the table of calls observed on the implementation",
